@@ -817,6 +817,8 @@ where
     let bsub: Vec<A> = if full && thorough { pts.to_vec() } else { wsub.iter().take(if thorough { 4 } else { 2 }).copied().collect() };
     batch_ops(cv, out, rng, &bsub, &kss[..3], &nss, &sss, true);
     batch_ops(cv, out, rng, &bsub[..1], &kss[3..], &[1, 33, 65536], &[rb], false);
+    // scalar_size = 0: the only scalar in the domain is 0
+    batch_ops(cv, out, rng, &bsub[..1], &[vec![ks[0]]], &[1, 33], &[0, 1], false);
 }
 /// shipped / large curve: structured scalars × a few points.  Each line costs two reference scalar
 /// multiplications in the driver (~10 ms each at 256 bits), so the quick tier rotates the operations over the
@@ -825,25 +827,27 @@ fn large<A: AffineRepr>(cv: &Cv<A>, out: &mut Out, rng: &mut Rng, pts: &[A], tho
 where
     A::Group: ScalarMul<MulBase = A>,
 {
-    let raws = raw_scalars(cv.n, &cv.r, rng, if thorough { 40 * scale } else { 4 * scale });
+    let raws = raw_scalars(cv.n, &cv.r, rng, if thorough { 20 * scale } else { 4 * scale });
     let np = pts.len();
     // pts[0] = identity (cheap for the driver), pts[1] = generator, the others rotate
     raw_ops(cv, out, rng, &pts[..1], &raws, if thorough { 4 } else { 1 });
     if thorough {
-        raw_ops(cv, out, rng, &pts[1..np], &raws, 4);
+        raw_ops(cv, out, rng, &pts[1..np.min(3)], &raws, 4);
+        raw_ops(cv, out, rng, &pts[np.min(3)..np], &raws, 1);
     } else {
         for (i, p) in pts[1..np].iter().enumerate() {
             let sel: Vec<Vec<u64>> = raws.iter().enumerate().filter(|(j, _)| (j + i) % (np - 1) == 0).map(|(_, s)| s.clone()).collect();
             raw_ops(cv, out, rng, &[*p], &sel, 1);
         }
     }
-    let ks: Vec<A::ScalarField> = field_scalars(rng, if thorough { 30 * scale } else { 4 * scale }, thorough);
+    let ks: Vec<A::ScalarField> = field_scalars(rng, if thorough { 15 * scale } else { 4 * scale }, thorough);
     if thorough {
-        scalar_ops(cv, out, rng, pts, &ks, 3);
+        scalar_ops(cv, out, rng, &pts[..np.min(3)], &ks, 3);
+        scalar_ops(cv, out, rng, &pts[np.min(3)..np], &ks, 1);
     } else {
         scalar_ops(cv, out, rng, &pts[..1], &ks[..8], 3);
         for (i, p) in pts[1..np].iter().enumerate() {
-            let sel: Vec<A::ScalarField> = ks.iter().enumerate().filter(|(j, _)| (j + i) % (np - 1) == 0).map(|(_, s)| *s).collect();
+            let sel: Vec<A::ScalarField> = ks.iter().enumerate().filter(|(j, _)| j % 2 == 0 && (j / 2 + i) % (np - 1) == 0).map(|(_, s)| *s).collect();
             scalar_ops(cv, out, rng, &[*p], &sel, 1);
         }
     }
@@ -851,12 +855,12 @@ where
     // wNAF, windows 2..=10 with fresh tables
     let ws = [2usize, 3, 4, 5, 6, 7, 8, 9, 10];
     if thorough {
-        let kw: Vec<A::ScalarField> = ks.iter().step_by(2).copied().collect();
+        let kw: Vec<A::ScalarField> = ks.iter().step_by(4).copied().collect();
         wnaf_ops(cv, out, rng, &pts[1..np.min(3)], &kw, &ws, 4);
     } else {
         // every scalar once, windows rotating
-        for (j, k) in ks.iter().enumerate().skip(rng.below(2) as usize).step_by(2) {
-            let j = j / 2;
+        for (j, k) in ks.iter().enumerate().skip(1).step_by(4) {
+            let j = j / 4;
             wnaf_ops(cv, out, rng, &pts[1 + j % (np - 1)..2 + j % (np - 1)], &[*k], &ws[j % 9..j % 9 + 1], 3);
         }
     }
@@ -864,6 +868,7 @@ where
     let few: Vec<A::ScalarField> = ks.iter().step_by((ks.len() / 3).max(1)).copied().collect();
     mwt_ops(cv, out, rng, &pts[1..2], &few, if thorough { &[2, 3, 4] } else { &[3] });
     // fixed base
+    batch_ops(cv, out, rng, &pts[1..2], &[vec![A::ScalarField::zero()]], &[1], &[0], false);
     let kb: Vec<A::ScalarField> = ks.iter().step_by((ks.len() / (if thorough { 24 } else { 4 })).max(1)).copied().collect();
     let rb = cv.rbits;
     let kss = vec![kb.clone(), vec![]];
@@ -1005,7 +1010,7 @@ fn main() {
         large(&cv, &mut out, &mut rng, &pts, th, 1);
         let ks: Vec<<C as CurveConfig>::ScalarField> = field_scalars(&mut rng, if th { 3000 } else { 300 }, true);
         glv_ops::<C>(&cv, &mut out, &mut rng, &[], &ks, true);
-        let ks2: Vec<_> = ks.iter().step_by(if th { 6 } else { 12 }).copied().collect();
+        let ks2: Vec<_> = ks.iter().step_by(if th { 6 } else { 24 }).copied().collect();
         let np = pts.len();
         glv_ops::<C>(&cv, &mut out, &mut rng, &pts[1..2], &ks2, false);
         let ks3: Vec<_> = ks.iter().step_by(if th { 30 } else { 97 }).copied().collect();
@@ -1023,7 +1028,7 @@ fn main() {
         let pts = sw_some_points::<SecpGlv>(&mut rng, if th { 3 } else { 1 });
         let ks: Vec<SecpFr> = field_scalars(&mut rng, if th { 2000 } else { 200 }, true);
         glv_ops::<SecpGlv>(&cv, &mut out, &mut rng, &[], &ks, true);
-        let ks2: Vec<_> = ks.iter().step_by(if th { 8 } else { 16 }).copied().collect();
+        let ks2: Vec<_> = ks.iter().step_by(if th { 8 } else { 32 }).copied().collect();
         glv_ops::<SecpGlv>(&cv, &mut out, &mut rng, &pts[1..3], &ks2, false);
         let raws = raw_scalars(4, &cv.r, &mut rng, 4);
         raw_ops(&cv, &mut out, &mut rng, &pts[1..2], &raws, if th { 4 } else { 1 });
@@ -1039,12 +1044,12 @@ fn main() {
         let pts = sw_some_points::<C>(&mut rng, 1);
         // 12-limb scalars: a thin slice only (each line costs ~1500 field inversions in the driver)
         let raws = raw_scalars(cv.n, &cv.r, &mut rng, 2);
-        let sel: Vec<Vec<u64>> = raws.iter().step_by(if th { 2 } else { 8 }).cloned().collect();
+        let sel: Vec<Vec<u64>> = raws.iter().step_by(if th { 2 } else { 12 }).cloned().collect();
         raw_ops(&cv, &mut out, &mut rng, &pts[1..2], &sel, if th { 4 } else { 1 });
         let ks: Vec<<C as CurveConfig>::ScalarField> = field_scalars(&mut rng, 2, th);
         let sel: Vec<_> = ks.iter().step_by(if th { 9 } else { 40 }).copied().collect();
         scalar_ops(&cv, &mut out, &mut rng, &pts[1..2], &sel, if th { 3 } else { 1 });
-        wnaf_ops(&cv, &mut out, &mut rng, &pts[1..2], &sel[..sel.len().min(4)], &[2, 4, 7], 2);
+        wnaf_ops(&cv, &mut out, &mut rng, &pts[1..2], &sel[..sel.len().min(if th { 4 } else { 2 })], if th { &[2, 4, 7] } else { &[4] }, 2);
         if th {
             batch_ops(&cv, &mut out, &mut rng, &pts[1..2], &[sel[..sel.len().min(3)].to_vec()], &[1, 1000], &[cv.rbits], false);
         }
